@@ -630,33 +630,31 @@ func (self *Value) updateByteLen(originLen int, address []int, isPacked bool, pa
 			if subLen == 0 {
 				// no need to change length
 				copy(buf[tagOffset:tagOffset+lenOffset], newBytes)
-				continue
-			}
+			} else {
+				// split length
+				srcHead := rt.AddPtr(self.v, uintptr(addressPtr+tagOffset))
+				if removed {
+					// delete tag
+					srcHead = rt.AddPtr(self.v, uintptr(addressPtr))
+					subLen -= tagOffset
+				}
 
-			// split length
-			srcHead := rt.AddPtr(self.v, uintptr(addressPtr+tagOffset))
-			if removed {
-				// delete tag
-				srcHead = rt.AddPtr(self.v, uintptr(addressPtr))
-				subLen -= tagOffset
-			}
+				srcTail := rt.AddPtr(self.v, uintptr(addressPtr+tagOffset+lenOffset))
+				l0 := int(uintptr(srcHead) - uintptr(self.v))
+				l1 := len(newBytes)
+				l2 := int(uintptr(self.v) + uintptr(self.l) - uintptr(srcTail))
 
-			srcTail := rt.AddPtr(self.v, uintptr(addressPtr+tagOffset+lenOffset))
-			l0 := int(uintptr(srcHead) - uintptr(self.v))
-			l1 := len(newBytes)
-			l2 := int(uintptr(self.v) + uintptr(self.l) - uintptr(srcTail))
-
-			// copy three slices into new buffer
-			newBuf := make([]byte, l0+l1+l2)
-			copy(newBuf[:l0], rt.BytesFrom(self.v, l0, l0))
-			copy(newBuf[l0:l0+l1], newBytes)
-			copy(newBuf[l0+l1:l0+l1+l2], rt.BytesFrom(srcTail, l2, l2))
-			self.v = rt.GetBytePtr(newBuf)
-			self.l = int(len(newBuf))
-			if isPacked {
-				isPacked = false
+				// copy three slices into new buffer
+				newBuf := make([]byte, l0+l1+l2)
+				copy(newBuf[:l0], rt.BytesFrom(self.v, l0, l0))
+				copy(newBuf[l0:l0+l1], newBytes)
+				copy(newBuf[l0+l1:l0+l1+l2], rt.BytesFrom(srcTail, l2, l2))
+				self.v = rt.GetBytePtr(newBuf)
+				self.l = int(len(newBuf))
+				diffLen += subLen
 			}
-			diffLen += subLen
+			// only the innermost enclosing node can be a packed list
+			isPacked = false
 			FreeBytesToPool(newBytes)
 		}
 
